@@ -16,7 +16,9 @@ GEN_MODULES = ['excelutil', 'aggregates', 'stats']
 
 ASSUMPTIONS = [
     "stored results are integers, text and logicals computed by the implementation itself on a no-data "
-    "copy of the workbook (integer arithmetic: 'consistent' is exact)",
+    "copy of the workbook (integer arithmetic: 'consistent' is exact); the magnitude stream uses float inputs "
+    "m*10^e (|e| <= 18, decimals that survive openpyxl's 16-digit writing) and formulas one IEEE operation away from "
+    "the exact value, stored results injected with repr (exact)",
     "the .xlsx files are written with openpyxl and the cached values injected into the sheet XML",
     "theorems: formula meaning is an arbitrary total function of the precedents' values (nothing raises: the "
     "exceptions / not-implemented buckets are oracle-only); close_enough is computed on exact rationals "
@@ -140,11 +142,85 @@ def close_enough_leg(ctx):
             got = ('raise', type(exc).__name__)
         calls.append(('close_enough', [enc_tol(tol), enc_val(a), enc_val(b)]))
         meta.append((dict(call='close_enough', args=[a, b, tol]), got))
+    # magnitudes 1e-18 .. 1e+18 (floats are exact rationals for the model; the cases stay a factor 2 away from the
+    # limits), with the property's rule as oracle
+    for a, b, tol, cls in magnitude_pairs(rng, ctx.n(1500, 15000)):
+        want = expect_close(a, b, tol)
+        if want is None:
+            continue
+        try:
+            got = bool(_CellBase.close_enough(types.SimpleNamespace(value=a), b, tol=tol))
+        except Exception as exc:     # noqa: BLE001
+            got = ('raise', type(exc).__name__)
+        case = dict(call='close_enough', args=[a, b, tol], magnitude=cls)
+        ctx.count(('close-mag', repr(case['args'])), kind='close_enough:magnitude-' + cls
+                  + (':default' if tol is None else ':explicit'), sample=dict(case, impl=got))
+        if got != want:
+            ctx.violation(case, "close_enough(recomputed, stored) is not the tolerance rule: default = relative 1e-5 "
+                                "for two non-zero numbers, absolute 1e-8 against zero; explicit = absolute",
+                          impl=got, expected=want)
+        calls.append(('close_enough', [enc_tol(tol), enc_val(a), enc_val(b)]))
+        meta.append((case, got))
+    if not ctx.model:
+        return
     for (case, got), ans in zip(meta, ctx.model.batch(calls)):
         ctx.count(('close', repr(case['args'])), kind='correspondence:close_enough')
         m = dec_val(ans) if isinstance(ans, list) and ans and ans[0] == 1 else ('bad', ans)
         if m != got:
             ctx.divergence(case, got, m, 'Model/Validate.v close_enough = _CellBase.close_enough')
+
+
+def expect_close(a, b, tol):
+    """The property's tolerance rule on exact rationals: an explicit tolerance is absolute; the default is relative
+    1e-5 when both numbers are non-zero and absolute 1e-8 when one of them is zero.  None when the difference is
+    within a factor 2 of the limit (float rounding of the implementation's own limit decides there)."""
+    fa, fb = fractions.Fraction(a), fractions.Fraction(b)
+    d = abs(fa - fb)
+    if tol is not None:
+        lim = fractions.Fraction(tol)
+    elif fa and fb:
+        lim = fractions.Fraction(1, 10 ** 5) * max(abs(fa), abs(fb))
+    else:
+        lim = fractions.Fraction(1, 10 ** 8)
+    if d == 0:
+        return True
+    if lim / 2 < d < lim * 2:
+        return None
+    return d < lim
+
+
+MANTISSAS = [1.4, 4.8, 2.5, 7.0, 3.0, 9.75]      # times 10^e, e in -18..18; never 1.0 (1e-8 is the absolute limit)
+REL_BEYOND = [2.0, 0.5, -0.5, 1e-3, -1e-3, 1e-4]   # relative alterations beyond / within the default 1e-5
+REL_WITHIN = [1e-7, -1e-7, 1e-9, 1e-6, -1e-6]
+
+
+def magnitude_pairs(rng, n):
+    """(recomputed, stored, tolerance, class) over magnitudes 1e-18 .. 1e+18: alterations that are large relatively
+    but tiny absolutely (4.8e-19 stored as 1.4e-18), tiny relatively but large absolutely (7e17 off by 7e10), a
+    flipped sign, an exact zero on either side; default and explicit tolerances (relative to the alteration and
+    absolute ones)."""
+    out = []
+    for _ in range(n):
+        a = float(f'{rng.choice(["", "", "-"])}{rng.choice(MANTISSAS)}e{rng.randrange(-18, 19)}')
+        cls = rng.choice(['beyond', 'beyond', 'within', 'within', 'sign', 'zero-stored', 'zero-recomputed', 'equal'])
+        if cls == 'beyond':
+            b = a * (1 + rng.choice(REL_BEYOND))
+        elif cls == 'within':
+            b = a * (1 + rng.choice(REL_WITHIN))
+        elif cls == 'sign':
+            b = -a
+        elif cls == 'zero-stored':
+            b = rng.choice([0, 0.0])
+        elif cls == 'zero-recomputed':
+            a, b = rng.choice([0, 0.0]), a
+        else:
+            b = a
+        d = abs(b - a)
+        tol = rng.choice([None, None, None, d * 100, d / 100, 1e-8, 1e-20, 1.0, 1e12, abs(a or b) * 1e-5])
+        if tol is not None and tol <= 0:
+            tol = None
+        out.append((a, b, tol, cls))
+    return out
 
 
 def ancestors(wb, n):
@@ -161,6 +237,150 @@ def quiet(f, *a, **kw):
     buf = io.StringIO()
     with contextlib.redirect_stdout(buf):
         return f(*a, **kw)
+
+
+def magnitude_workbook(rng):
+    """A workbook whose numbers all have one magnitude 10^e (e in -18..18): 2-4 inputs, then 3-6 formulas.  Formulas
+    that round (+, -, *3, SUM of two) read inputs only; exact ones (=A, -A, *2, MIN, MAX) read anything — so every
+    value is one IEEE operation away from the model's exact rational.  =Ai-Ai gives an exact zero."""
+    wb = wbgen.WB()
+    e = rng.randrange(-18, 19)
+    for _ in range(rng.randrange(2, 5)):
+        # the double nearest to the decimal m*10^e (openpyxl writes 16 significant digits: such a number survives
+        # the file); an integral number is an int once it went through the file
+        x = float(f'{rng.choice(["", "", "-"])}{rng.choice(MANTISSAS)}e{e}')
+        wb.add_input(int(x) if x == int(x) and abs(x) < 1e15 else x)
+    nin = len(wb.rows)
+    for _ in range(rng.randrange(3, 7)):
+        rows = len(wb.rows)
+        k = rng.randrange(9)
+        r = rng.randrange(1, rows + 1)
+        i, j = rng.randrange(1, nin + 1), rng.randrange(1, nin + 1)
+        if k == 0:
+            wb.add_formula(f'=A{r}', [wb.rows[r - 1]], [2, [0, 0]])
+        elif k == 1:
+            wb.add_formula(f'=-A{r}', [wb.rows[r - 1]], [4, [0, 0]])
+        elif k == 2:
+            wb.add_formula(f'=A{r}*2', [wb.rows[r - 1]], [3, 2, [0, 0], [1, 2]])
+        elif k == 3:
+            wb.add_formula(f'=A{i}*3', [wb.rows[i - 1]], [3, 2, [0, 0], [1, 3]])
+        elif k in (4, 5):
+            sym, code = ('+', 0) if k == 4 else ('-', 1)
+            if k == 5 and rng.random() < 0.4:
+                j = i                                            # an exact zero
+            deps = [wb.rows[i - 1]] + ([wb.rows[j - 1]] if j != i else [])
+            wb.add_formula(f'=A{i}{sym}A{j}', deps, [3, code, [0, 0], [0, deps.index(wb.rows[j - 1])]])
+        elif k == 6 and nin >= 2:
+            r1 = rng.randrange(1, nin)
+            wb.add_formula(f'=SUM(A{r1}:A{r1 + 1})', [wb.get_range(r1, r1 + 1)], [5, 0, [0, 0]])
+        else:
+            r1 = rng.randrange(1, rows)
+            r2 = rng.randrange(r1 + 1, rows + 1)
+            name, w = rng.choice([('MIN', 1), ('MAX', 2)])
+            wb.add_formula(f'={name}(A{r1}:A{r2})', [wb.get_range(r1, r2)], [5, w, [0, 0]])
+    return wb
+
+
+def magnitude_stream(ctx, ExcelCompiler, batch):
+    """validate_calcs on workbooks of one magnitude (1e-18 .. 1e+18) with one stored result altered at a time:
+    relatively large but absolutely tiny, relatively tiny but absolutely large, sign flipped, an exact zero stored
+    for a non-zero result or a non-zero number stored for an exact zero; default tolerance and explicit ones.  The
+    altered cell is reported iff the alteration exceeds the tolerance (property's rule, expect_close); anything
+    else reported depends on it; an alteration within the default tolerance gives an empty report."""
+    rng = ctx.rng
+    ctx.extra['rule'] += (
+        "; magnitude stream: workbooks whose numbers share one magnitude 10^e, e in -18..18 (float inputs m*10^e, "
+        "formulas =A, -A, A*2, A*3, A+B, A-B, A-A, SUM, MIN, MAX), consistent stored results, then one stored result "
+        "altered relatively (x(1+d), |d| in 1e-9..2), sign-flipped, replaced by 0, or an exact 0 replaced by m*10^e'; "
+        "tolerance None / 100x / 0.01x the alteration / 1e-20, 1e-8, 1, 1e12")
+    for k in range(ctx.n(45, 450)):
+        wb = magnitude_workbook(rng)
+        desc = [(x['addr'], x.get('value'), x.get('text')) for x in wb.nodes]
+        formulas = wb.formulas()
+        ref = ExcelCompiler(excel=wb.to_openpyxl())
+        good = {i: ref.evaluate(wb.nodes[i]['addr']) for i in formulas}
+        if not all(isinstance(v, (int, float)) and not isinstance(v, bool) for v in good.values()):
+            ctx.broke('harness: magnitude workbook with a non-numeric result', repr((desc, good)))
+            continue
+        path = os.path.join(ctx.work, f'm{k}.xlsx')
+        wbgen.write_xlsx_with_results(wb, good, path)
+        # the inputs must come back from the file as the numbers (and int/float kinds) the model is given
+        back = ExcelCompiler(filename=path)
+        if any(canon(back.evaluate(wb.nodes[i]['addr'])) != canon(wb.nodes[i]['value']) for i in wb.inputs()):
+            ctx.count(('mag-skip', k), kind='magnitude:input-changed-by-the-file-skipped')
+            continue
+        size = max(abs(x) for x in list(good.values()) + [wb.nodes[i]['value'] for i in wb.inputs()])
+        # explicit tolerances stay far above the rounding error of the magnitude (the model is exact)
+        abs_tols = [t for t in (1e-20, 1e-8, 1.0, 1e12) if t >= size * 1e-9]
+        for tol in (None, size * 1e-6):
+            comp = ExcelCompiler(filename=path)
+            case = dict(call='validate', workbook=desc, args=[None, tol], perturbed=None, stream='magnitude')
+            try:
+                rep = quiet(comp.validate_calcs, tolerance=tol)
+            except Exception as exc:      # noqa: BLE001
+                ctx.violation(case, f"validate_calcs raises {type(exc).__name__}: {exc}"[:200])
+                continue
+            ctx.count(('mag-ok', k, tol), kind='magnitude:consistent')
+            record(batch, case, wb, good, comp, rep, None, tol)
+            if rep != {}:
+                ctx.violation(case, "non-empty report on a consistent workbook", impl=repr(rep)[:300], expected={})
+        for p in formulas:
+            v = good[p]
+            for _ in range(2):
+                if v:
+                    cls = rng.choice(['beyond', 'beyond', 'within', 'within', 'sign', 'zero-stored'])
+                    v2 = (v * (1 + rng.choice(REL_BEYOND)) if cls == 'beyond' else
+                          v * (1 + rng.choice(REL_WITHIN)) if cls == 'within' else -v if cls == 'sign' else 0.0)
+                else:
+                    cls = 'zero-recomputed'
+                    v2 = float(f'{rng.choice(["", "-"])}{rng.choice(MANTISSAS)}e{rng.randrange(-18, 19)}')
+                d = abs(v2 - v)
+                tol = rng.choice([None, None, None, d * 100, d / 100] + abs_tols)
+                want_close = expect_close(v, v2, tol)
+                if want_close is None or v2 == v:
+                    continue
+                altered = dict(good)
+                altered[p] = v2
+                wbgen.write_xlsx_with_results(wb, altered, path)
+                paddr = wb.nodes[p]['addr']
+                choices = [None] + [[wb.nodes[o]['addr']] for o in formulas if o == p or p in ancestors(wb, o)]
+                outs = rng.choice(choices)
+                comp = ExcelCompiler(filename=path)
+                case = dict(call='validate', workbook=desc, args=[outs, tol], perturbed=[paddr, v, v2, cls],
+                            stream='magnitude')
+                try:
+                    rep = quiet(comp.validate_calcs, output_addrs=outs, tolerance=tol)
+                except Exception as exc:      # noqa: BLE001
+                    ctx.violation(case, f"validate_calcs raises {type(exc).__name__}: {exc}"[:200])
+                    continue
+                ctx.count(('mag', k, p, cls, tol, repr(outs)),
+                          kind=f'magnitude:{cls}:' + ('default' if tol is None else 'explicit'),
+                          sample=dict(case, report=repr(rep)[:200]))
+                record(batch, case, wb, altered, comp, rep, outs, tol)
+                mism = rep.get('mismatch', {})
+                if want_close:
+                    if paddr in mism:
+                        ctx.violation(case, "a stored result altered by less than the tolerance is reported",
+                                      impl=repr(rep)[:300])
+                    elif tol is None and cls == 'within' and rep != {}:
+                        ctx.violation(case, "non-empty report although every stored result is within the default "
+                                            "tolerance of its recomputation", impl=repr(rep)[:300], expected={})
+                elif paddr not in mism:
+                    ctx.violation(case, "the altered cell is not reported as a mismatch", impl=repr(rep)[:300],
+                                  expected=paddr)
+                else:
+                    m = mism[paddr]
+                    if not (isinstance(m.original, (int, float)) and isinstance(m.calced, (int, float))
+                            and m.original == v2 and m.calced == v):
+                        ctx.violation(case, "the mismatch does not carry the stored and the recomputed value",
+                                      impl=[canon(m.original), canon(m.calced)], expected=[canon(v2), canon(v)])
+                for other in mism:
+                    oi = wb.index_of(other)
+                    if other != paddr and (oi is None or p not in ancestors(wb, oi)):
+                        ctx.violation(case, f"{other} is reported but does not depend on the altered cell",
+                                      impl=repr(rep)[:300])
+                if set(rep) - {'mismatch'}:
+                    ctx.violation(case, "unexpected exception / not-implemented entries", impl=repr(rep)[:300])
 
 
 def run(ctx):
@@ -276,9 +496,10 @@ def run(ctx):
                    wb, altered, comp, rep, None, tol)
         except Exception as exc:      # noqa: BLE001
             ctx.broke('harness: correspondence-only stream failed', repr(exc))
+    magnitude_stream(ctx, ExcelCompiler, batch)
     if ctx.model:
         compare(ctx, batch)
-        close_enough_leg(ctx)
+    close_enough_leg(ctx)
     # ---- cells that cannot be evaluated are reported, not skipped
     for k in range(ctx.n(10, 100)):
         wb = wbgen.gen_workbook(rng, ncells=rng.randrange(4, 8), pool=wbgen.CLEAN_POOL)
